@@ -5,7 +5,26 @@ from . import common
 SPEC_THEOREM = 'Props/C17: writer (pre) = pre ++ writer []; offsets are positions in the same buffer; errors append nothing'
 TRUSTED = ['Coq 8.16.1 kernel', 'translator', 'extraction + OCaml driver', 'Rust harness', 'buffer-explicit models Codec.v (Encoder), PathSem.v (build_*), Dispatch.v']
 ASSUMPTIONS = ['inputs are canonical encodings of well-formed values']
-RULE = 'every buffer-writing function called with the empty buffer and with prefixes (1 byte, a previous result, 4 KiB); the prefixed result must equal prefix ++ result-on-empty and offsets must be shifted by the prefix length; non-trivial = something appended'
+RULE = 'every buffer-writing function (incl. size-preserving updates of an existing member) called with the empty buffer and with prefixes (1 byte, a previous result, 4 KiB); the prefixed result must equal prefix ++ result-on-empty and offsets must be shifted by the prefix length; non-trivial = something appended'
+
+
+def same_width(ctx, x):
+    """a different value whose entry word (type and payload length) equals that of x: what an 'update in place' fast path
+    would accept"""
+    r = ctx.rng
+    k = x[0]
+    if k == 's' and x[1]:
+        b = bytes(x[1])
+        return ('s', bytes(reversed(b)) if bytes(reversed(b)) != b else bytes([(b[0] % 26) + 97]) + b[1:])
+    if k in 'ui' and 1 <= abs(x[1]) < 100:
+        return (k, x[1] + (1 if x[1] > 0 else -1))
+    if k in 'ui' and abs(x[1]) >= 100:
+        return (k, x[1] - 1 if x[1] > 0 else x[1] + 1)
+    if k == 'a':
+        return ('a', [same_width(ctx, y) for y in x[1]])
+    if k == 'o':
+        return ('o', [(kk, same_width(ctx, y)) for kk, y in x[1]])
+    return x
 
 
 def generate(ctx):
@@ -28,6 +47,14 @@ def generate(ctx):
                'build_array %s' % gen.hexlist([gen.enc(v), gen.enc(w)]), 'build_object %s %s' % (gen.hexlist([b'k', b'a']), gen.hexlist([gen.enc(v), gen.enc(w)])),
                'get_by_path %s %s' % (e, p), 'get_by_path_first %s %s' % (e, p), 'get_by_path_array %s %s' % (e, p),
                'select %s %s all' % (e, p)]
+        if v[0] == 'o' and v[1]:
+            # updates that keep every size (same key, a value with the same entry word): a tempting case for writing in place
+            for kk, x in r.sample(v[1], min(len(v[1]), 3)):
+                y = same_width(ctx, x)
+                ops.append('object_insert %s %s %s 1' % (e, gen.hexarg(kk), gen.hexarg(gen.enc(y))))
+                ops.append('concat %s %s' % (e, gen.hexarg(gen.enc(('o', [(kk, y)])))))
+        if v[0] == 'a' and v[1]:
+            ops.append('concat %s %s' % (e, e))
         prefixes = [b'\x00', gen.enc(w), bytes(r.randrange(256) for _ in range(4096)) if r.random() < 0.05 else b'\xff\x80\x40\x20']
         for op in ops:
             name, rest = op.split(' ', 1)
